@@ -58,6 +58,7 @@ type BatchResult struct {
 	Complete   bool             `json:"complete"`
 	Diverged   string           `json:"diverged,omitempty"`
 	Rule       string           `json:"rule,omitempty"`
+	EnumSize   int              `json:"enum_size,omitempty"`
 	// replay / shrink
 	Reproduced  bool   `json:"reproduced"`
 	Class       string `json:"class,omitempty"`
@@ -84,6 +85,11 @@ func TestWorker(t *testing.T) {
 		t.Fatalf("unknown property %q", job.Property)
 	}
 	log.SetOutput(io.Discard)
+	// goalign prints warnings through os.Stderr; the runtime writes crash
+	// reports to file descriptor 2 directly, which stays the captured file
+	if dn, err := os.OpenFile(os.DevNull, os.O_WRONLY, 0); err == nil {
+		os.Stderr = dn
+	}
 	debug.SetGCPercent(400)
 	verifrt.ExitAsPanic = true
 	jobExtra = job.Extra
@@ -255,7 +261,7 @@ func writeReplay(p Property, job *Job, runseed uint64, c interface{}, v *Violati
 	if err != nil {
 		return err
 	}
-	rp := Replay{Property: p.ID(), RunSeed: runseed, Tier: job.Tier, Race: job.Race, Class: v.Class, Detail: v.Detail, Shrunk: shrunk, Case: cb}
+	rp := Replay{Property: p.ID(), RunSeed: runseed, Tier: job.Tier, Race: job.Race, Index: -1, Class: v.Class, Detail: v.Detail, Shrunk: shrunk, Case: cb}
 	b, _ := json.MarshalIndent(rp, "", " ")
 	os.MkdirAll(filepath.Dir(path), 0755)
 	return os.WriteFile(path, b, 0644)
@@ -275,14 +281,37 @@ func runBatch(t *testing.T, p Property, job *Job) (res BatchResult) {
 	if job.MaxPerClass == 0 {
 		job.MaxPerClass = 2
 	}
+	lastFlush := time.Now()
+	flush := func() {
+		// partial result: survives the death of this process in a later run
+		pr := res
+		pr.Sigs = nil
+		for s := range sigs {
+			pr.Sigs = append(pr.Sigs, s)
+		}
+		pr.Rule = p.Rule()
+		out, _ := json.Marshal(pr)
+		if os.WriteFile(job.Out+".part.tmp", out, 0644) == nil {
+			os.Rename(job.Out+".part.tmp", job.Out+".part")
+		}
+		lastFlush = time.Now()
+	}
 	for k := 0; k < job.Count; k++ {
+		if k%256 == 255 && time.Since(lastFlush) > time.Second {
+			flush()
+		}
 		if job.DeadlineS > 0 && time.Since(t0) > time.Duration(job.DeadlineS)*time.Second {
 			break
 		}
 		idx := job.Start + k*job.Stride
 		rs := Mix(job.Seed, job.Property, job.Race, idx)
 		fmt.Fprintf(jf, "B %d %d\n", idx, rs)
-		c := p.Gen(rs, job.Tier, job.Race)
+		var c interface{}
+		if en, ok := p.(Enumerator); ok && !job.Race && idx < en.EnumCount(job.Tier) {
+			c = en.EnumCase(job.Tier, idx)
+		} else {
+			c = p.Gen(rs, job.Tier, job.Race)
+		}
 		ctx := &Ctx{T: t, Tier: job.Tier, Race: job.Race}
 		o := runOne(t, p, ctx, c, rw)
 		fmt.Fprintf(jf, "E %d\n", idx)
@@ -313,6 +342,9 @@ func runBatch(t *testing.T, p Property, job *Job) (res BatchResult) {
 		}
 	}
 	res.Complete = true
+	if en, ok := p.(Enumerator); ok && !job.Race {
+		res.EnumSize = en.EnumCount(job.Tier)
+	}
 	res.Rule = p.Rule()
 	for s := range sigs {
 		res.Sigs = append(res.Sigs, s)
@@ -334,7 +366,11 @@ func loadReplay(t *testing.T, p Property, path string) (Replay, interface{}) {
 	c := p.New()
 	if len(rp.Case) == 0 || string(rp.Case) == "null" {
 		// seed-only replay (written by the supervisor for a worker that died)
-		c = p.Gen(rp.RunSeed, rp.Tier, rp.Race)
+		if en, ok := p.(Enumerator); ok && !rp.Race && rp.Index >= 0 && rp.Index < en.EnumCount(rp.Tier) {
+			c = en.EnumCase(rp.Tier, rp.Index)
+		} else {
+			c = p.Gen(rp.RunSeed, rp.Tier, rp.Race)
+		}
 	} else if err := json.Unmarshal(rp.Case, c); err != nil {
 		t.Fatal(err)
 	}
